@@ -142,6 +142,15 @@ def streamEnter (id : Nat) (showPrompt : Bool) (s : St) : Bool × St :=
 
 /-- `with_stream` exit (the `finally` block) -/
 def streamExit (id : Nat) (prev : Bool) (s : St) : St :=
+  -- regex prompt: forward what precedes the actual prompt, drop the rest of the hold-back
+  let s := match s.logPrompt, s.prompt with
+    | false, some (.re r) =>
+      if s.streambuf.isEmpty then s else
+      let s := match r.search s.streambuf with
+        | some (a, _) => emit (s.streambuf.take a) s
+        | none => s
+      { s with streambuf := [] }
+    | _, _ => s
   let s := { s with streams := s.streams.erase id }
   let s := match s.logPrompt, s.prompt with
     | false, some p => { s with streambuf := s.streambuf.drop p.len }
